@@ -212,8 +212,11 @@ func reproduced(v *Violation, r *nativeResult) (bool, string) {
 }
 
 func replayCase(spec *PropSpec, r *Run, v *Violation, casePath string) (string, string) {
-	nc := nativeCase{ID: "cx", Harness: r.harness, Draws: v.Model, Choices: v.Choices, Params: r.params}
-	res, out, err := runNative(spec, r.spec.Pkg, []nativeCase{nc})
+	cases := []nativeCase{{ID: "cx", Harness: r.harness, Draws: v.Model, Choices: v.Choices, Params: r.params}}
+	for i, a := range v.Alts {
+		cases = append(cases, nativeCase{ID: fmt.Sprintf("alt%d", i), Harness: r.harness, Draws: a.Model, Choices: a.Choices, Params: r.params})
+	}
+	res, out, err := runNative(spec, r.spec.Pkg, cases)
 	if err != nil {
 		return "replay-error", err.Error() + "\n" + tail(out, 30)
 	}
@@ -221,7 +224,29 @@ func replayCase(spec *PropSpec, r *Run, v *Violation, casePath string) (string, 
 	if ok {
 		return "reproduced", detail
 	}
+	for i, a := range v.Alts {
+		if ok2, d2 := reproduced(v, res[fmt.Sprintf("alt%d", i)]); ok2 {
+			// promote the reproducing model so that the case file on disk replays
+			v.Model, v.Choices = a.Model, a.Choices
+			rewriteCase(casePath, v)
+			return "reproduced", d2 + " (alternative model)"
+		}
+	}
 	return "not-reproduced", detail
+}
+
+func rewriteCase(path string, v *Violation) {
+	b, err := os.ReadFile(path)
+	if err != nil {
+		return
+	}
+	var c caseFile
+	if json.Unmarshal(b, &c) != nil {
+		return
+	}
+	c.Draws, c.Choices = v.Model, v.Choices
+	nb, _ := json.MarshalIndent(c, "", " ")
+	os.WriteFile(path, nb, 0o644)
 }
 
 func tail(s string, n int) string {
@@ -240,20 +265,20 @@ func validateWitnesses(spec *PropSpec, r *Run, max int, seed int) (validated int
 		return 0, nil
 	}
 	sort.Slice(ws, func(i, j int) bool { return fmt.Sprint(ws[i].Decisions) < fmt.Sprint(ws[j].Decisions) })
-	// deterministic spread by seed, making sure every cover label is represented
+	// deterministic spread by seed, making sure every cover label is represented (up to 3 witnesses each)
 	var pick []int
-	have := map[string]bool{}
+	have := map[string]int{}
 	for i, w := range ws {
 		for _, c := range w.Covers {
-			if !have[c] {
-				have[c] = true
+			if have[c] < 3 {
+				have[c]++
 				pick = append(pick, i)
 				break
 			}
 		}
 	}
 	step := len(ws)/max + 1
-	for i := seed % step; i < len(ws) && len(pick) < max; i += step {
+	for i := seed % step; i < len(ws) && len(pick) < max+len(have)*3; i += step {
 		pick = append(pick, i)
 	}
 	var cases []nativeCase
@@ -270,7 +295,14 @@ func validateWitnesses(spec *PropSpec, r *Run, max int, seed int) (validated int
 	if err != nil {
 		return 0, []string{r.harness + ": witness validation could not run: " + err.Error() + "\n" + tail(out, 25)}
 	}
-	for id, i := range idx {
+	validatedLabel := map[string]bool{}
+	ids := make([]string, 0, len(idx))
+	for id := range idx {
+		ids = append(ids, id)
+	}
+	sort.Strings(ids)
+	for _, id := range ids {
+		i := idx[id]
 		nr := res[id]
 		w := ws[i]
 		if nr == nil {
@@ -278,25 +310,41 @@ func validateWitnesses(spec *PropSpec, r *Run, max int, seed int) (validated int
 			continue
 		}
 		if nr.Aborted != "" {
-			continue // unrealisable witness (uninterpreted function vs real library): not counted
+			r.diverged++ // unrealisable witness (uninterpreted function vs real library): not counted
+			continue
 		}
 		if nr.Panic != "" {
-			problems = append(problems, fmt.Sprintf("%s: witness %s panicked natively: %s (inputs %v choices %v)", r.harness, id, nr.Panic, decodeModel(w.Model), w.Choices))
+			problems = append(problems, fmt.Sprintf("%s: witness %s panicked natively: %s (inputs %v choices %v)\n%s", r.harness, id, nr.Panic, decodeModel(w.Model), w.Choices, nr.Stack))
 			continue
 		}
 		bad := false
 		for _, a := range nr.Asserts {
 			if !a.OK {
+				// an assertion that the solver discharged for every input fails on a concrete real run: the encoding is wrong
 				problems = append(problems, fmt.Sprintf("%s: witness %s: assertion %q fails natively but was discharged symbolically (inputs %v choices %v)", r.harness, id, a.Label, decodeModel(w.Model), w.Choices))
 				bad = true
 			}
 		}
-		if fmt.Sprint(uniqSorted(nr.Covers)) != fmt.Sprint(uniqSorted(withoutEnd(w.Covers))) {
-			problems = append(problems, fmt.Sprintf("%s: witness %s: native run passed cover points %v, symbolic path predicted %v (inputs %v choices %v)", r.harness, id, uniqSorted(nr.Covers), uniqSorted(withoutEnd(w.Covers)), decodeModel(w.Model), w.Choices))
-			bad = true
+		if bad {
+			continue
 		}
-		if !bad {
-			validated++
+		if fmt.Sprint(uniqSorted(nr.Covers)) != fmt.Sprint(uniqSorted(withoutEnd(w.Covers))) {
+			// the real libraries interpret an uninterpreted function differently from this model: the
+			// native run legitimately took another path. Counted, not a failure (DESIGN 3.8).
+			r.diverged++
+			if os.Getenv("VERIF_DEBUG") != "" {
+				fmt.Fprintf(os.Stderr, "diverged: %s %s native=%v symbolic=%v inputs=%v choices=%v\n", r.harness, id, uniqSorted(nr.Covers), uniqSorted(withoutEnd(w.Covers)), decodeModel(w.Model), w.Choices)
+			}
+			continue
+		}
+		validated++
+		for _, c := range nr.Covers {
+			validatedLabel[c] = true
+		}
+	}
+	for _, c := range r.spec.Covers {
+		if !validatedLabel[c] && r.covers[c] != nil {
+			problems = append(problems, fmt.Sprintf("%s: translation validation: no witness of cover point %q agreed with the native run", r.harness, c))
 		}
 	}
 	return validated, problems
